@@ -230,6 +230,15 @@ def showMG (g : MG) : String :=
     s!"{showNd e.src}>{showNd e.dst}>{showWire e.key}>{match e.ct with | some c => String.singleton c | none => "-"}")
   s!"regs={g.ne}.{g.np}.{g.nc} nodes={if ns = "" then "-" else ns} edges={if es = "" then "-" else es}"
 
+open Graphiq.Compare in
+/-- the same with the attributes of the repaired `add_control_target_to_dag` (a pair of roles per edge) -/
+def showMG2 (g : MG) : String :=
+  let ns := String.intercalate ";" (g.nodes.map fun p => s!"{showNd p.1}={showNOp p.2}")
+  let r := fun (o : Option Char) => match o with | some c => String.singleton c | none => "-"
+  let es := String.intercalate ";" (g.edges.map fun e =>
+    s!"{showNd e.src}>{showNd e.dst}>{showWire e.key}>{r e.ct2.1}{r e.ct2.2}")
+  s!"regs={g.ne}.{g.np}.{g.nc} nodes={if ns = "" then "-" else ns} edges={if es = "" then "-" else es}"
+
 /-- `ne.np.nc/op,op,…` -/
 def circOfStr (s : String) : Option Circuit :=
   match splitChar '/' s with
@@ -252,6 +261,7 @@ def cmdGraph (a : Args) : String :=
     | .error e => s!"err {e}"
     | .ok g =>
       let g := if get a "norm" = "1" then g.normalise else g
+      if get a "ct" = "2" then s!"ok {showMG2 g.addControlTarget2}" else
       let g := if get a "ct" = "1" then g.addControlTarget else g
       s!"ok {showMG g}"
 
@@ -259,7 +269,7 @@ open Graphiq.Compare in
 def cmdCmp (a : Args) : String :=
   match circOfStr (get a "a"), circOfStr (get a "b") with
   | some c1, some c2 =>
-    s!"ok direct={showEB (direct c1 c2)} directl={b01 (directL c1 c2)} iso={showEB (circuitIsIsomorphic c1 c2)} isonorm={showEB (isoNormalised c1 c2)} reneq={b01 (renEq c1 c2)} wireseq={b01 (wiresEq c1 c2)}"
+    s!"ok direct={showEB (direct c1 c2)} directl={b01 (directL c1 c2)} iso={showEB (circuitIsIsomorphic c1 c2)} isonorm={showEB (isoNormalised c1 c2)} reneq={b01 (renEq c1 c2)} wireseq={b01 (wiresEq c1 c2)} iso2={showEB (circuitIsIsomorphic2 c1 c2)} isonorm2={showEB (isoNormalised2 c1 c2)}"
   | _, _ => "err parse"
 
 open Graphiq.Compare in
@@ -273,7 +283,10 @@ def cmdFilter (a : Args) : String :=
     let kept := removeRedundantWith isoEq idx
     let st := storageAddAll dirEq false idx
     let st2 := storageAddAll isoEq false idx
-    s!"ok kept={showNats "." (kept.map (·.2))} stdirect={String.ofList (st.2.map fun b => if b then '1' else '0')} stiso={String.ofList (st2.2.map fun b => if b then '1' else '0')}"
+    let isoEq2 := fun (x y : Circuit × Nat) => match isoNormalised2 x.1 y.1 with | .ok r => r | .error _ => false
+    let kept2 := removeRedundantWith isoEq2 idx
+    let st3 := storageAddAll isoEq2 false idx
+    s!"ok kept={showNats "." (kept.map (·.2))} stdirect={String.ofList (st.2.map fun b => if b then '1' else '0')} stiso={String.ofList (st2.2.map fun b => if b then '1' else '0')} kept2={showNats "." (kept2.map (·.2))} stiso2={String.ofList (st3.2.map fun b => if b then '1' else '0')}"
 
 def dispatch (cmd : String) (a : Args) : Option String :=
   match cmd with
